@@ -15,13 +15,17 @@ use grin_core::core::compact_block::CompactBlock;
 use grin_core::core::hash::{Hash, Hashed};
 use grin_core::core::id::ShortIdentifiable;
 use grin_core::core::transaction::{
-	self, CommitWrapper, FeeFields, Inputs, KernelFeatures, NRDRelativeHeight, Output,
+	self, CommitWrapper, FeeFields, Input, Inputs, KernelFeatures, NRDRelativeHeight, Output,
 	OutputFeatures, Transaction, TransactionBody, TxKernel, Weighting,
 };
 use grin_core::global;
 use grin_core::libtx::aggsig;
 use grin_core::ser;
+use grin_core::core::id::ShortId;
+use grin_core::core::{BlockSums, OutputIdentifier};
 use grin_keychain::BlindingFactor;
+use grin_pool::{BlockChain, Pool, PoolEntry, PoolError, TxSource};
+use std::sync::Arc;
 use grin_util::secp::key::SecretKey;
 use grin_util::secp::pedersen::{Commitment, RangeProof};
 use grin_util::static_secp_instance;
@@ -204,15 +208,40 @@ impl ModelSecp {
 		)
 	}
 
-	fn input(&mut self, i: &Value) -> CommitWrapper {
-		let c = self.commit(i["v"].as_i64().unwrap(), i["r"].as_i64().unwrap());
-		CommitWrapper::from(c)
+	/// The inputs of a model body in the representation `iv` names: "co" = Inputs::CommitOnly,
+	/// "fc" = Inputs::FeaturesAndCommit with the features each input claims (field f = "cb": coinbase,
+	/// else plain), "fcb" = FeaturesAndCommit with every input claiming coinbase features.
+	fn inputs(&mut self, ins: &Value, iv: &str) -> Inputs {
+		let ins = ins.as_array().unwrap();
+		if iv == "co" {
+			let v: Vec<CommitWrapper> = ins
+				.iter()
+				.map(|i| CommitWrapper::from(self.commit(i["v"].as_i64().unwrap(), i["r"].as_i64().unwrap())))
+				.collect();
+			return Inputs::from(&v[..]);
+		}
+		assert!(iv == "fc" || iv == "fcb", "iv {}", iv);
+		let v: Vec<Input> = ins
+			.iter()
+			.map(|i| {
+				let cb = iv == "fcb" || i.get("f").and_then(|f| f.as_str()) == Some("cb");
+				Input::new(
+					if cb { OutputFeatures::Coinbase } else { OutputFeatures::Plain },
+					self.commit(i["v"].as_i64().unwrap(), i["r"].as_i64().unwrap()),
+				)
+			})
+			.collect();
+		Inputs::from(&v[..])
 	}
 
 	fn features(k: &Value) -> KernelFeatures {
 		let fee_units = k["fee"].as_i64().unwrap();
+		// fs: the fee_shift bits (40..43) of the fee field
+		let fs = k.get("fs").and_then(|v| v.as_u64()).unwrap_or(0);
 		let fee = if fee_units == 0 {
 			FeeFields::zero()
+		} else if fs > 0 {
+			FeeFields::new(fs, amount(fee_units)).expect("fee fields with shift")
 		} else {
 			FeeFields::try_from(amount(fee_units)).expect("fee fields")
 		};
@@ -278,22 +307,27 @@ impl ModelSecp {
 		kern
 	}
 
-	fn parts(&mut self, b: &Value) -> (Vec<CommitWrapper>, Vec<Output>, Vec<TxKernel>) {
-		let ins: Vec<_> = b["ins"].as_array().unwrap().iter().map(|i| self.input(i)).collect();
+	fn parts(&mut self, b: &Value, iv: &str) -> (Inputs, Vec<Output>, Vec<TxKernel>) {
+		let ins = self.inputs(&b["ins"], iv);
 		let outs: Vec<_> = b["outs"].as_array().unwrap().iter().map(|o| self.output(o)).collect();
 		let kerns: Vec<_> = b["kerns"].as_array().unwrap().iter().map(|k| self.kernel(k)).collect();
 		(ins, outs, kerns)
 	}
 
+	/// A model transaction; its own field `iv` (C12 libraries) names the representation of its inputs.
 	fn tx(&mut self, b: &Value) -> Transaction {
-		let (ins, outs, kerns) = self.parts(b);
-		Transaction::new(Inputs::from(&ins[..]), &outs, &kerns)
-			.with_offset(blind(b["off"].as_i64().unwrap()))
+		let iv = b.get("iv").and_then(|v| v.as_str()).unwrap_or("co").to_string();
+		self.tx_iv(b, &iv)
 	}
 
-	fn block(&mut self, b: &Value, ctx: &Value) -> Block {
-		let (ins, outs, kerns) = self.parts(b);
-		let body = TransactionBody::init(Inputs::from(&ins[..]), &outs, &kerns, false).expect("init sorts");
+	fn tx_iv(&mut self, b: &Value, iv: &str) -> Transaction {
+		let (ins, outs, kerns) = self.parts(b, iv);
+		Transaction::new(ins, &outs, &kerns).with_offset(blind(b["off"].as_i64().unwrap()))
+	}
+
+	fn block(&mut self, b: &Value, ctx: &Value, iv: &str) -> Block {
+		let (ins, outs, kerns) = self.parts(b, iv);
+		let body = TransactionBody::init(ins, &outs, &kerns, false).expect("init sorts");
 		Block {
 			header: BlockHeader {
 				height: ctx["height"].as_u64().unwrap(),
@@ -327,8 +361,7 @@ impl ModelSecp {
 	}
 
 	fn proj_body(&self, body: &TransactionBody) -> Value {
-		let ins: Vec<CommitWrapper> = body.inputs().into();
-		let mut i: Vec<Value> = ins.iter().map(|c| self.proj_commit(&c.commitment())).collect();
+		let mut i: Vec<Value> = input_commits(&body.inputs()).iter().map(|c| self.proj_commit(c)).collect();
 		let mut o: Vec<Value> = body
 			.outputs()
 			.iter()
@@ -391,21 +424,38 @@ fn validate_cmd(args: &Args) -> i32 {
 	let cases = read_ndjson(args.req("cases"));
 	let mut out = NdWriter::create(args.req("out"));
 	let mut ms = ModelSecp::new();
+	let mut runs_total = 0usize;
 	for c in &cases {
 		let ctx = &c["ctx"];
 		global::set_local_nrd_enabled(ctx["nrd"].as_bool().unwrap_or(true));
-		let (res, err) = if ctx["as"] == "tx" {
-			let tx = ms.tx(&c["body"]);
-			class(catch_unwind(AssertUnwindSafe(|| tx.validate(Weighting::AsTransaction))))
-		} else {
-			let b = ms.block(&c["body"], ctx);
-			let prev = blind(ctx["prev"].as_i64().unwrap());
-			class(catch_unwind(AssertUnwindSafe(|| b.validate(&prev))))
-		};
-		out.put(&json!({"id": c["id"], "res": res, "err": err}));
+		// the realisations to run: representation of the inputs x weighting; the first one is the base run
+		// (CommitOnly inputs, AsTransaction / AsBlock) whose result is also reported at the top level
+		let default_runs = vec![json!({"iv": "co", "w": if ctx["as"] == "tx" { "tx" } else { "block" }})];
+		let runs = c.get("run_list").and_then(|r| r.as_array()).unwrap_or(&default_runs);
+		let mut rr = vec![];
+		for run in runs {
+			let iv = run["iv"].as_str().unwrap_or("co");
+			let (res, err) = if ctx["as"] == "tx" {
+				let w = match run["w"].as_str().unwrap_or("tx") {
+					"tx" => Weighting::AsTransaction,
+					"limited" => Weighting::AsLimitedTransaction(c["limited_max"].as_u64().expect("limited_max")),
+					"nolimit" => Weighting::NoLimit,
+					x => panic!("weighting {}", x),
+				};
+				let tx = ms.tx_iv(&c["body"], iv);
+				class(catch_unwind(AssertUnwindSafe(|| tx.validate(w))))
+			} else {
+				let b = ms.block(&c["body"], ctx, iv);
+				let prev = blind(ctx["prev"].as_i64().unwrap());
+				class(catch_unwind(AssertUnwindSafe(|| b.validate(&prev))))
+			};
+			rr.push(json!({"iv": iv, "w": run["w"], "res": res, "err": err}));
+			runs_total += 1;
+		}
+		out.put(&json!({"id": c["id"], "res": rr[0]["res"], "err": rr[0]["err"], "runs": rr}));
 	}
 	out.finish();
-	println!("{}", json!({"cases": cases.len(), "proofs_made": ms.proofs_made, "sigs_made": ms.sigs_made}));
+	println!("{}", json!({"cases": cases.len(), "runs": runs_total, "proofs_made": ms.proofs_made, "sigs_made": ms.sigs_made}));
 	0
 }
 
@@ -427,8 +477,27 @@ fn eval_plan(plan: &Value, txs: &[Transaction]) -> Result<Transaction, transacti
 	}
 }
 
+/// The commitments of the inputs in either representation, sorted - read off the enum directly (the
+/// conversions From<&Inputs> are code under test).
+fn input_commits(inputs: &Inputs) -> Vec<Commitment> {
+	let mut v: Vec<Commitment> = match inputs {
+		Inputs::CommitOnly(c) => c.iter().map(|x| x.commitment()).collect(),
+		Inputs::FeaturesAndCommit(i) => i.iter().map(|x| x.commitment()).collect(),
+	};
+	v.sort_by(|a, b| a.0.cmp(&b.0));
+	v
+}
+
 fn body_bytes(b: &TransactionBody) -> Vec<u8> {
 	ser::ser_vec(b, ser::ProtocolVersion(3)).expect("ser body")
+}
+
+/// The same body: the same input commitments, outputs (with their proofs) and kernels in the same order,
+/// and the same bytes on the wire. The REPRESENTATION of the inputs (Inputs::CommitOnly / FeaturesAndCommit)
+/// is not part of it: a block built from a single FeaturesAndCommit transaction keeps that representation
+/// while a hydrated block is always CommitOnly; `same_repr` reports it separately.
+fn same_body(a: &TransactionBody, b: &TransactionBody) -> bool {
+	input_commits(&a.inputs()) == input_commits(&b.inputs()) && a.outputs() == b.outputs() && a.kernels() == b.kernels() && body_bytes(a) == body_bytes(b)
 }
 
 fn agg_cmd(args: &Args) -> i32 {
@@ -497,13 +566,25 @@ fn agg_cmd(args: &Args) -> i32 {
 			o["deaggs"] = json!(res);
 		}
 
-		// block from the txs + reward, compact form, hydration from the same txs in each grouping
-		if let Some(bl) = c.get("block") {
-			let r = catch_unwind(AssertUnwindSafe(|| hydrate_case(&mut ms, bl, &txs)));
-			o["block"] = match r {
+		// block from the txs + reward, compact form, hydration from the same txs in each grouping:
+		// one block per previous offset (`blocks`); a single `block` is the form of older replay files
+		let bystanders: Vec<Transaction> = c
+			.get("bystanders")
+			.and_then(|b| b.as_array())
+			.map(|a| a.iter().map(|b| ms.tx(b)).collect())
+			.unwrap_or_default();
+		let run_block = |ms: &mut ModelSecp, bl: &Value| -> Value {
+			match catch_unwind(AssertUnwindSafe(|| hydrate_case(ms, bl, &txs, &bystanders))) {
 				Ok(v) => v,
 				Err(_) => json!({"res": "panic"}),
-			};
+			}
+		};
+		if let Some(bl) = c.get("block") {
+			o["block"] = run_block(&mut ms, bl);
+		}
+		if let Some(bls) = c.get("blocks").and_then(|b| b.as_array()) {
+			let rs: Vec<Value> = bls.iter().map(|bl| run_block(&mut ms, bl)).collect();
+			o["blocks"] = json!(rs);
 		}
 		out.put(&o);
 	}
@@ -512,7 +593,151 @@ fn agg_cmd(args: &Args) -> i32 {
 	0
 }
 
-fn hydrate_case(ms: &mut ModelSecp, bl: &Value, txs: &[Transaction]) -> Value {
+/// Pool::retrieve_transactions never talks to the chain.
+struct NoChain;
+
+impl BlockChain for NoChain {
+	fn verify_coinbase_maturity(&self, _: &Inputs) -> Result<(), PoolError> {
+		unimplemented!()
+	}
+	fn verify_tx_lock_height(&self, _: &Transaction) -> Result<(), PoolError> {
+		unimplemented!()
+	}
+	fn validate_tx(&self, _: &Transaction) -> Result<(), PoolError> {
+		unimplemented!()
+	}
+	fn validate_inputs(&self, _: &Inputs) -> Result<Vec<OutputIdentifier>, PoolError> {
+		unimplemented!()
+	}
+	fn chain_head(&self) -> Result<BlockHeader, PoolError> {
+		unimplemented!()
+	}
+	fn get_block_header(&self, _: &Hash) -> Result<BlockHeader, PoolError> {
+		unimplemented!()
+	}
+	fn get_block_sums(&self, _: &Hash) -> Result<BlockSums, PoolError> {
+		unimplemented!()
+	}
+}
+
+/// The compact form of `b` under a given nonce. Nonce 0 stands for "whatever CompactBlock::from draws";
+/// any other nonce is put into the serialised compact block (with the short ids of the non-coinbase
+/// kernels under that nonce, sorted as the type sorts them) and the bytes go through the real reader.
+fn compact_with_nonce(b: &Block, nonce: u64) -> Result<CompactBlock, String> {
+	let cb: CompactBlock = b.clone().into();
+	if nonce == 0 {
+		return Ok(cb);
+	}
+	let v = ser::ProtocolVersion(3);
+	let bytes = ser::ser_vec(&cb, v).map_err(|e| format!("ser compact block: {:?}", e))?;
+	let hl = ser::ser_vec(&b.header, v).map_err(|e| format!("ser header: {:?}", e))?.len();
+	let n = cb.kern_ids().len();
+	let hash = cb.hash();
+	let mut ids: Vec<ShortId> = b.kernels().iter().filter(|k| !k.is_coinbase()).map(|k| k.short_id(&hash, nonce)).collect();
+	ids.sort_unstable();
+	if ids.len() != n || bytes.len() < hl + 8 + 6 * n || bytes[hl..hl + 8] != cb.nonce.to_be_bytes() {
+		return Err("compact block layout is not header | nonce | body with the short ids last".to_string());
+	}
+	let mut nb = bytes[..hl].to_vec();
+	nb.extend_from_slice(&nonce.to_be_bytes());
+	nb.extend_from_slice(&bytes[hl + 8..bytes.len() - 6 * n]);
+	for id in &ids {
+		nb.extend_from_slice(id.as_ref());
+	}
+	let cb2 = ser::deserialize::<CompactBlock, _>(&mut &nb[..], v, ser::DeserializationMode::default())
+		.map_err(|e| format!("compact block with chosen nonce not readable: {:?}", e))?;
+	if cb2.nonce != nonce || cb2.header != b.header || cb2.kern_ids().len() != n || cb2.kern_full() != cb.kern_full() || cb2.out_full() != cb.out_full() {
+		return Err("compact block with chosen nonce read back differently".to_string());
+	}
+	Ok(cb2)
+}
+
+/// The node's route (NetToChainAdapter::compact_block_received): the pool holds `entries`; the real
+/// Pool::retrieve_transactions looks the compact block's short ids up, and when nothing is missing
+/// Block::hydrate_from builds the block from what was returned. One record per distinct outcome over the
+/// nonces: the kernels (model ids) of every transaction returned, the kernels reported missing, and how
+/// the hydrated block compares with `b`.
+fn via_pool(ms: &ModelSecp, b: &Block, want_bytes: &[u8], entries: &[Transaction], nonces: &[u64]) -> Value {
+	let mut pool = Pool::new(Arc::new(NoChain), "txpool".to_string());
+	for tx in entries {
+		pool.entries.push(PoolEntry::new(tx.clone(), TxSource::Broadcast));
+	}
+	let mut outcomes: Vec<(Value, Vec<u64>)> = vec![];
+	for nonce in nonces {
+		// building the compact block under the chosen nonce is the harness's business, not a verdict
+		let cb = match catch_unwind(AssertUnwindSafe(|| compact_with_nonce(b, *nonce))) {
+			Ok(Ok(cb)) => cb,
+			Ok(Err(e)) => {
+				outcomes.push((json!({"res": "setup", "err": e}), vec![*nonce]));
+				continue;
+			}
+			Err(_) => {
+				outcomes.push((json!({"res": "setup", "err": "panic while building the compact block"}), vec![*nonce]));
+				continue;
+			}
+		};
+		let r = catch_unwind(AssertUnwindSafe(|| {
+			let used = cb.nonce;
+			let hash = cb.hash();
+			let (found, missing) = pool.retrieve_transactions(hash.clone(), cb.nonce, cb.kern_ids());
+			let mut f: Vec<Vec<i64>> = found
+				.iter()
+				.map(|t| {
+					let mut k: Vec<i64> = t.kernels().iter().map(|k| *ms.kernel_ids.get(&k.hash()).unwrap_or(&-1)).collect();
+					k.sort();
+					k
+				})
+				.collect();
+			f.sort();
+			let mut m: Vec<i64> = missing
+				.iter()
+				.map(|id| {
+					b.kernels()
+						.iter()
+						.find(|k| k.short_id(&hash, used).as_ref() == id.as_ref())
+						.and_then(|k| ms.kernel_ids.get(&k.hash()).cloned())
+						.unwrap_or(-1)
+				})
+				.collect();
+			m.sort();
+			let hyd = if missing.is_empty() {
+				match Block::hydrate_from(cb, &found) {
+					Ok(hb) => {
+						let same_hash = hb.header.hash() == b.header.hash() && hb.header == b.header;
+						let same_body = same_body(&hb.body, &b.body) && body_bytes(&hb.body) == want_bytes;
+						let mut h = json!({"res": "ok", "same_hash": same_hash, "same_body": same_body, "same_repr": hb.body == b.body});
+						if !same_body {
+							h["proj"] = ms.proj_body(&hb.body);
+						}
+						h
+					}
+					Err(e) => json!({"res": "err", "err": format!("{:?}", e)}),
+				}
+			} else {
+				json!({"res": "not_attempted"})
+			};
+			(json!({"found": f, "missing": m, "hyd": hyd}), used)
+		}));
+		let (v, used) = match r {
+			Ok(x) => x,
+			Err(_) => (json!({"res": "panic"}), *nonce),
+		};
+		match outcomes.iter_mut().find(|(o, _)| *o == v) {
+			Some((_, ns)) => ns.push(used),
+			None => outcomes.push((v, vec![used])),
+		}
+	}
+	json!(outcomes
+		.into_iter()
+		.map(|(mut v, ns)| {
+			v["n"] = json!(ns.len());
+			v["nonce"] = json!(ns[0].to_string());
+			v
+		})
+		.collect::<Vec<Value>>())
+}
+
+fn hydrate_case(ms: &mut ModelSecp, bl: &Value, txs: &[Transaction], bystanders: &[Transaction]) -> Value {
 	let reward_out = ms.output(&bl["cb_out"]);
 	let reward_kern = ms.kernel(&bl["cb_kern"]);
 	let prev = BlockHeader {
@@ -544,7 +769,7 @@ fn hydrate_case(ms: &mut ModelSecp, bl: &Value, txs: &[Transaction]) -> Value {
 				let mut r = json!({"res": "ok"});
 				match &reference {
 					Some((_, rb)) => {
-						r["same_body"] = json!(rb.body == b.body && body_bytes(&rb.body) == body_bytes(&b.body));
+						r["same_body"] = json!(same_body(&rb.body, &b.body));
 						r["same_total"] = json!(rb.header.total_kernel_offset == b.header.total_kernel_offset);
 						if r["same_body"] != json!(true) {
 							r["proj"] = ms.proj_body(&b.body);
@@ -566,7 +791,14 @@ fn hydrate_case(ms: &mut ModelSecp, bl: &Value, txs: &[Transaction]) -> Value {
 		"valid": bv, "verr": bverr, "builds": builds, "ref": ref_ix});
 	let want_bytes = body_bytes(&b.body);
 	let mut hyd = vec![];
-	for g in bl["groupings"].as_array().unwrap() {
+	// the route through the pool (when the case asks for it): nonces and, per grouping, the part a lacking pool lacks
+	let nonces: Vec<u64> = bl
+		.get("nonces")
+		.and_then(|n| n.as_array())
+		.map(|a| a.iter().map(|x| x.as_str().and_then(|s| s.parse().ok()).or(x.as_u64()).unwrap_or(0)).collect())
+		.unwrap_or_default();
+	let drops = bl.get("pool_drop").and_then(|d| d.as_array()).cloned().unwrap_or_default();
+	for (gi, g) in bl["groupings"].as_array().unwrap().iter().enumerate() {
 		// a grouping is a list of plans: each plan is one (possibly pre-aggregated) transaction
 		let cb: CompactBlock = b.clone().into();
 		// short ids announced by the compact block are those of the non-coinbase kernels under its nonce
@@ -585,19 +817,33 @@ fn hydrate_case(ms: &mut ModelSecp, bl: &Value, txs: &[Transaction]) -> Value {
 		};
 		let full_out = cb.out_full().len();
 		let full_kern = cb.kern_full().len();
-		match Block::hydrate_from(cb, &parts) {
+		let mut h = match Block::hydrate_from(cb, &parts) {
 			Ok(hb) => {
 				let same_hash = hb.header.hash() == b.header.hash() && hb.header == b.header;
-				let same_body = hb.body == b.body && body_bytes(&hb.body) == want_bytes;
-				let mut h = json!({"res": "ok", "same_hash": same_hash, "same_body": same_body, "ids_ok": ids_ok,
-					"full_out": full_out, "full_kern": full_kern});
+				let same_body = same_body(&hb.body, &b.body) && body_bytes(&hb.body) == want_bytes;
+				let mut h = json!({"res": "ok", "same_hash": same_hash, "same_body": same_body, "same_repr": hb.body == b.body,
+					"ids_ok": ids_ok, "full_out": full_out, "full_kern": full_kern});
 				if !same_body {
 					h["proj"] = ms.proj_body(&hb.body);
 				}
-				hyd.push(h);
+				h
 			}
-			Err(e) => hyd.push(json!({"res": "err", "err": format!("{:?}", e)})),
+			Err(e) => json!({"res": "err", "err": format!("{:?}", e)}),
+		};
+		if !nonces.is_empty() && !parts.is_empty() {
+			// pool = [bystander] ++ the grouping ++ [bystander]; and the same pool lacking one group
+			let entries = |skip: Option<usize>| -> Vec<Transaction> {
+				let mut e: Vec<Transaction> = bystanders.iter().take(1).cloned().collect();
+				e.extend(parts.iter().enumerate().filter(|(i, _)| Some(*i) != skip).map(|(_, t)| t.clone()));
+				e.extend(bystanders.iter().skip(1).cloned());
+				e
+			};
+			h["pool"] = via_pool(ms, &b, &want_bytes, &entries(None), &nonces);
+			if let Some(j) = drops.get(gi).and_then(|d| d.as_u64()) {
+				h["pool_lacking"] = via_pool(ms, &b, &want_bytes, &entries(Some(j as usize)), &nonces[..1.min(nonces.len())]);
+			}
 		}
+		hyd.push(h);
 	}
 	res["hydrated"] = json!(hyd);
 	res
